@@ -21,6 +21,25 @@ use dashmap::DashSet;
 use std::sync::Arc;
 use std::sync::atomic::AtomicBool;
 
+static DROPPED_PROPOSALS: std::sync::Mutex<Vec<(Byte32, Vec<ckb_types::packed::ProposalShortId>)>> =
+    std::sync::Mutex::new(Vec::new());
+
+/// Called at every tip change with the ids the proposal table reports as dropped (what the
+/// tx-pool is told): recorded as (new tip hash, ids) for the simulator's oracle.
+pub(crate) fn record_dropped_proposals(
+    new_tip: Byte32,
+    ids: &std::collections::HashSet<ckb_types::packed::ProposalShortId>,
+) {
+    let mut ids: Vec<_> = ids.iter().cloned().collect();
+    ids.sort();
+    DROPPED_PROPOSALS.lock().expect("lock").push((new_tip, ids));
+}
+
+/// Takes the records made since the last call: one (new tip hash, dropped ids) per tip change.
+pub fn take_dropped_proposals() -> Vec<(Byte32, Vec<ckb_types::packed::ProposalShortId>)> {
+    std::mem::take(&mut *DROPPED_PROPOSALS.lock().expect("lock"))
+}
+
 /// The chain service stages without their threads.
 pub struct SimChain {
     shared: Shared,
